@@ -16,6 +16,7 @@ func init() {
 	vReg("H_C01_search", H_C01_search)
 	vReg("H_C01_searchfilter", H_C01_searchfilter)
 	vReg("H_C01_modify", H_C01_modify)
+	vReg("H_C01_modify_long", H_C01_modify_long)
 	vReg("H_C01_modify2", H_C01_modify2)
 	vReg("H_C01_add", H_C01_add)
 	vReg("H_C01_delete", H_C01_delete)
@@ -434,6 +435,17 @@ func vShort(name string) string {
 func H_C01_modify()  { vModify(1, vMaxCtl) }
 func H_C01_modify2() { vModify(2, 0) }
 
+// one change with values of up to 299 bytes (length octets in the short, 0x81 and 0x82 forms)
+func H_C01_modify_long() { vValBound = 300; vModify(1, 0) }
+
+var vValBound = 12
+
+func vVal(name string) string {
+	s := vStr(name)
+	vAssume(len(s) < vValBound)
+	return s
+}
+
 func vModify(maxChanges, maxCtl int) {
 	id, dn := vID(), vShort("dn")
 	vSummarise("-encodeLength")
@@ -449,8 +461,12 @@ func vModify(maxChanges, maxCtl int) {
 		n := fmt.Sprintf("chg%d", i)
 		c := chg{op: vI64(n + ".op"), typ: vShort(n + ".type")}
 		vAssume(c.op >= 0 && c.op <= 3)
-		nv := vLen(n+".nvals", 2)
-		c.vals = []string{vShort(n + ".v0"), vShort(n + ".v1")}[:nv]
+		maxVals := 2
+		if vValBound > 12 {
+			maxVals = 1 // long mode: one long value
+		}
+		nv := vLen(n+".nvals", maxVals)
+		c.vals = []string{vVal(n + ".v0"), vVal(n + ".v1")}[:nv]
 		changes = append(changes, c)
 		set := refSet()
 		for _, v := range c.vals {
@@ -493,6 +509,11 @@ func vModify(maxChanges, maxCtl int) {
 			got := g.Modification.Vals[j]
 			if got == v {
 				continue // plain form
+			}
+			if vValBound > 12 {
+				// long values: compared with the reference encoding of the OCTET STRING directly
+				vAssert(got == rOctet(v), "modify value (plain or the BER encoding of the client's OCTET STRING)")
+				continue
 			}
 			un, e := ConvertString(got)
 			vAssert(e == nil && len(un) == 1 && un[0] == v, "modify value (plain or BER-wrapped)")
